@@ -23,7 +23,32 @@ pub enum TOp {
     UpdateQty(u16, u64),
     /// move to another price (removal)
     Move(u16),
+    /// removal through price+quantity (via 1) or replace (via 2) with another price
+    MoveVia(u16, u8),
+    /// same-price amendment through price+quantity (via 1) or replace (via 2)
+    AmendVia(u16, u64, u8),
     Read,
+}
+
+impl TOp {
+    pub fn is_removal(&self) -> bool {
+        matches!(self, TOp::Cancel(_) | TOp::Move(_) | TOp::MoveVia(..))
+    }
+    pub fn is_amend(&self) -> bool {
+        matches!(self, TOp::UpdateQty(..) | TOp::AmendVia(..))
+    }
+    pub fn amend_qty(&self) -> Option<u64> {
+        match self {
+            TOp::UpdateQty(_, q) | TOp::AmendVia(_, q, _) => Some(*q),
+            _ => None,
+        }
+    }
+    pub fn target_index(&self) -> Option<u16> {
+        match self {
+            TOp::Cancel(i) | TOp::Move(i) | TOp::MoveVia(i, _) | TOp::UpdateQty(i, _) | TOp::AmendVia(i, _, _) => Some(*i),
+            _ => None,
+        }
+    }
 }
 
 #[derive(Clone, Debug, PartialEq, Eq, Hash, Serialize, Deserialize)]
@@ -37,6 +62,10 @@ pub struct Program {
     /// added and cancelled again, leaving that many dead tickets in the queue
     #[serde(default)]
     pub churn: u16,
+    /// sequential prelude: this many one-unit Standard orders (fresh reserved ids) are added and
+    /// stay resting (large sweeps, many-order states)
+    #[serde(default)]
+    pub burst: u16,
 }
 
 impl Program {
@@ -66,8 +95,17 @@ fn conc_order(profile_kinds: [u32; 7]) -> BoxedStrategy<OrderSpec> {
         zero_amount: false,
         kind_weights: profile_kinds,
     };
-    gen::order_spec(cfg)
-        .prop_map(|mut s| {
+    (gen::order_spec(cfg), 0u8..12)
+        .prop_map(|(mut s, stuck)| {
+            if stuck == 0 && s.kind.has_hidden() {
+                // an order that shows nothing and cannot replenish (it can only wait): iceberg with
+                // display 0, or reserve with display 0 and replenish amount 0
+                s.display = 0;
+                s.hidden = 1 + s.hidden % 10;
+                s.auto = true;
+                s.amount = Some(0);
+                return s;
+            }
             s.display = 1 + (s.display - 1) % 10;
             s.hidden = if s.kind.has_hidden() { s.hidden % 11 } else { 0 };
             if let Some(a) = s.amount {
@@ -113,10 +151,10 @@ fn top(cfg: ProgCfg) -> BoxedStrategy<TOp> {
     let kinds = [4, 4, 1, 1, 1, 1, 4];
     prop_oneof![
         cfg.w_add => conc_order(kinds).prop_map(TOp::Add),
-        cfg.w_match => (1u64..=15).prop_map(TOp::Match),
+        cfg.w_match => prop_oneof![9 => 1u64..=15, 1 => 60u64..=140].prop_map(TOp::Match),
         cfg.w_cancel => any::<u16>().prop_map(TOp::Cancel),
-        cfg.w_amend => (any::<u16>(), 1u64..=12).prop_map(|(i, q)| TOp::UpdateQty(i, q)),
-        cfg.w_move => any::<u16>().prop_map(TOp::Move),
+        cfg.w_amend => (any::<u16>(), 1u64..=12, 0u8..6).prop_map(|(i, q, v)| if v < 4 { TOp::UpdateQty(i, q) } else { TOp::AmendVia(i, q, v - 3) }),
+        cfg.w_move => (any::<u16>(), 0u8..3).prop_map(|(i, v)| if v == 0 { TOp::Move(i) } else { TOp::MoveVia(i, v) }),
         cfg.w_read => Just(TOp::Read),
     ]
     .boxed()
@@ -138,8 +176,10 @@ pub fn program(cfg: ProgCfg) -> BoxedStrategy<Program> {
                 1 => 30u16..=40,
                 1 => 62u16..=70,
                 1 => 126u16..=134,
+                1 => prop_oneof![250u16..=260, 1020u16..=1030],
             ];
-            churn.prop_map(move |churn| Program { price, preload: preload.clone(), threads: threads.clone(), first, schedule: schedule.clone(), churn })
+            let burst = prop_oneof![12 => Just(0u16), 1 => 17u16..=20, 1 => 62u16..=70];
+            (churn, burst).prop_map(move |(churn, burst)| Program { price, preload: preload.clone(), threads: threads.clone(), first, schedule: schedule.clone(), churn, burst })
         })
         .boxed()
 }
@@ -221,11 +261,18 @@ pub fn execute(p: &Program, with_probes: bool) -> Execution {
         level.add_order(churn_spec.build(id, p.price));
         let _ = level.update_order(OrderUpdate::Cancel { order_id: id });
     }
+    for k in 0..p.burst {
+        let id = OrderId::from_u64(0xB0_0000_0000 + k as u64);
+        let mut sp = churn_spec;
+        sp.ts = 60 + k as u64;
+        level.add_order(sp.build(id, p.price));
+        supplied += 1;
+    }
     let generator = UuidGenerator::new(uuid::Uuid::from_u128(0xC0FFEE));
     let world = Mutex::new(World {
         in_progress: vec![None; p.threads.len()],
         supplied_bound: supplied,
-        orders_bound: p.preload.len(),
+        orders_bound: p.preload.len() + p.burst as usize,
         ..World::default()
     });
     // assign add ids
@@ -266,7 +313,7 @@ pub fn execute(p: &Program, with_probes: bool) -> Execution {
             if let Some(ci) = w.in_progress[tid] {
                 let (is_upd, id) = {
                     let c = &w.calls[ci];
-                    (matches!(c.op, TOp::Cancel(_) | TOp::UpdateQty(..) | TOp::Move(_)), c.id)
+                    (c.op.is_removal() || c.op.is_amend(), c.id)
                 };
                 if is_upd {
                     if let Some(id) = id {
@@ -315,7 +362,7 @@ pub fn execute(p: &Program, with_probes: bool) -> Execution {
                 let target = |i: u16| uni[pick(i, uni.len())];
                 let id = match op {
                     TOp::Add(_) => ids[k],
-                    TOp::Cancel(i) | TOp::Move(i) | TOp::UpdateQty(i, _) => Some(target(*i)),
+                    TOp::Cancel(i) | TOp::Move(i) | TOp::UpdateQty(i, _) | TOp::MoveVia(i, _) | TOp::AmendVia(i, _, _) => Some(target(*i)),
                     _ => None,
                 };
                 let start = ctx.now();
@@ -326,7 +373,7 @@ pub fn execute(p: &Program, with_probes: bool) -> Execution {
                             w.supplied_bound += s.display as u128 + if s.kind.has_hidden() { s.hidden as u128 } else { 0 };
                             w.orders_bound += 1;
                         }
-                        TOp::UpdateQty(_, q) => w.supplied_bound += *q as u128,
+                        TOp::UpdateQty(_, q) | TOp::AmendVia(_, q, _) => w.supplied_bound += *q as u128,
                         _ => {}
                     }
                     w.calls.push(Call {
@@ -386,6 +433,22 @@ pub fn execute(p: &Program, with_probes: bool) -> Execution {
                             .map(|o| o.map(|a| *a))
                             .map_err(|e| e.to_string()),
                     ),
+                    TOp::MoveVia(_, via) => {
+                        let u = if *via == 1 {
+                            OrderUpdate::UpdatePriceAndQuantity { order_id: id.unwrap(), new_price: price + 1, new_quantity: 3 }
+                        } else {
+                            OrderUpdate::Replace { order_id: id.unwrap(), price: price + 1, quantity: 3, side: pricelevel::Side::Buy }
+                        };
+                        CallResult::Updated(level_ref.update_order(u).map(|o| o.map(|a| *a)).map_err(|e| e.to_string()))
+                    }
+                    TOp::AmendVia(_, q, via) => {
+                        let u = if *via == 1 {
+                            OrderUpdate::UpdatePriceAndQuantity { order_id: id.unwrap(), new_price: price, new_quantity: *q }
+                        } else {
+                            OrderUpdate::Replace { order_id: id.unwrap(), price, quantity: *q, side: pricelevel::Side::Sell }
+                        };
+                        CallResult::Updated(level_ref.update_order(u).map(|o| o.map(|a| *a)).map_err(|e| e.to_string()))
+                    }
                     TOp::Read => {
                         let s = level_ref.snapshot();
                         let _ = level_ref.iter_orders();
@@ -602,12 +665,12 @@ pub fn judge(p: &Program, ex: &Execution, drain: bool) -> Judgement {
     let listing = agg(level, "after all threads returned", &mut v);
     // ---- C15: statistics vs events
     {
-        let adds = p.churn as usize + ex.initial.len() + ex.calls.iter().filter(|c| matches!(c.result, CallResult::Added)).count();
+        let adds = p.churn as usize + p.burst as usize + ex.initial.len() + ex.calls.iter().filter(|c| matches!(c.result, CallResult::Added)).count();
         let removed = p.churn as usize
             + ex
             .calls
             .iter()
-            .filter(|c| matches!(c.op, TOp::Cancel(_) | TOp::Move(_)) && matches!(c.result, CallResult::Updated(Ok(Some(_)))))
+            .filter(|c| c.op.is_removal() && matches!(c.result, CallResult::Updated(Ok(Some(_)))))
             .count();
         let qty: u128 = ex
             .calls
@@ -719,10 +782,10 @@ pub fn judge(p: &Program, ex: &Execution, drain: bool) -> Judgement {
                         rem = rem.saturating_sub(f.1);
                     }
                 }
-                (TOp::UpdateQty(_, q), CallResult::Updated(Ok(Some(o)))) if c.id == Some(*id) => {
-                    events.push(Event { ev: Ev::Amend { new_q: *q, returned: *o }, start: c.start, end: c.end, call: ci, seq: 0 });
+                (op, CallResult::Updated(Ok(Some(o)))) if op.is_amend() && c.id == Some(*id) => {
+                    events.push(Event { ev: Ev::Amend { new_q: op.amend_qty().unwrap(), returned: *o }, start: c.start, end: c.end, call: ci, seq: 0 });
                 }
-                (TOp::Cancel(_) | TOp::Move(_), CallResult::Updated(Ok(Some(o)))) if c.id == Some(*id) => {
+                (op, CallResult::Updated(Ok(Some(o)))) if op.is_removal() && c.id == Some(*id) => {
                     events.push(Event { ev: Ev::Remove { returned: *o }, start: c.start, end: c.end, call: ci, seq: 0 });
                 }
                 _ => {}
@@ -758,7 +821,7 @@ pub fn judge(p: &Program, ex: &Execution, drain: bool) -> Judgement {
     // ---- C13 part 1: not-found answers
     let mut cancel_overlapping = false;
     for (ci, c) in ex.calls.iter().enumerate() {
-        let is_cancel_or_amend = matches!(c.op, TOp::Cancel(_) | TOp::UpdateQty(..) | TOp::Move(_));
+        let is_cancel_or_amend = c.op.is_removal() || c.op.is_amend();
         if !is_cancel_or_amend {
             continue;
         }
@@ -782,7 +845,7 @@ pub fn judge(p: &Program, ex: &Execution, drain: bool) -> Judgement {
                 return false;
             }
             match (&d.op, &d.result) {
-                (TOp::Cancel(_) | TOp::Move(_), CallResult::Updated(Ok(Some(_)))) => d.id == Some(id),
+                (op, CallResult::Updated(Ok(Some(_)))) if op.is_removal() => d.id == Some(id),
                 (TOp::Match(_), CallResult::Matched { filled, .. }) => filled.contains(&id),
                 _ => false,
             }
